@@ -129,6 +129,14 @@ func (srv *Server) handleChannel(ctx context.Context, c *ServerChannel) {
 
 	if err != nil {
 		log.Printf("server: establish: %v\n", err)
+		// Release the connection: nobody is going to serve it
+		_ = c.Close()
+		return
+	}
+
+	if !c.Established() {
+		// The handshake was answered with a failed session
+		_ = c.Close()
 		return
 	}
 
